@@ -71,6 +71,16 @@ def listing(path):
     return out
 
 
+# Container unique names `<app>-<instance id>-<13-char uniqueid>`: the first
+# two are two incarnations of ONE instance (they differ only in the uniqueid),
+# the third is another instance of the same application.
+UNIQUE_NAMES = ['proid.app-0000000001-AAAAAAAAAAAAA',
+                'proid.app-0000000001-BBBBBBBBBBBBB',
+                'proid.app-0000000002-CCCCCCCCCCCCC']
+# caller identities that are missing rather than wrong
+EMPTY_OWNERS = [None, '']
+
+
 def call(fn, *args, **kw):
     """('ok', value) or ('raise', exception type name, errno)."""
     try:
@@ -227,6 +237,8 @@ class Base:
                 del expected[e]
             else:
                 self.stats['release_by_non_owner'] += 1
+                if not owner:
+                    self.stats['release_with_empty_owner_of_held_entry'] += 1
         if out[0] != 'ok':
             self.stats['release_raised'] += 1
         self.settle(ev, site, 'release', expected, caller=owner)
@@ -363,6 +375,9 @@ def vip_cfg(cidr, owners, picks):
             evs.append(('pick', o, ip))
     for o in owners:
         for ip in picks:
+            evs.append(('free', o, ip))
+    for o in EMPTY_OWNERS:
+        for ip in picks[:2]:
             evs.append(('free', o, ip))
     for o in owners:
         evs.append(('vanish', o))
@@ -544,6 +559,9 @@ def rule_cfg(owners):
     for i in range(3):
         for o in owners:
             evs.append(('unlink', i, o))
+    for i in range(3):
+        for o in EMPTY_OWNERS:
+            evs.append(('unlink', i, o))
     for o in owners:
         evs.append(('vanish', o))
         evs.append(('appear', o))
@@ -659,6 +677,18 @@ class SpecFilterWorld(Base):
                        owner=self.owner_path(o))
             self.check_allocate(ev, 'EndpointsMgr.create_spec', self.names[i],
                                 o, out, own_ok=None)
+        elif kind == 'unlink':
+            # ownerless unlink_spec (owner=None): the documented mode of the
+            # host services / Windows, a purge of exactly the named spec
+            i = ev[1]
+            a, p, e, rp, pid, port = FSPECS[i]
+            out = call(self.mgr.unlink_spec, appname=a, proto=p, endpoint=e,
+                       real_port=rp, pid=pid, port=port, owner=None)
+            self.stats['ownerless_release'] += 1
+            expected = {n: h for n, h in self.ref.items()
+                        if n != self.names[i]}
+            self.settle(ev, 'EndpointsMgr.unlink_spec', 'filtered', expected,
+                        addressed={self.names[i]}, caller=None)
         elif kind == 'unlink_all':
             app, proto, endpoint, o = ev[1], ev[2], ev[3], ev[4]
             out = call(self.mgr.unlink_all, app, proto=proto,
@@ -691,6 +721,8 @@ def spec_filter_cfg(owners):
     for i in range(len(FSPECS)):
         for o in owners:
             evs.append(('create', i, o))
+    for i in range(len(FSPECS)):
+        evs.append(('unlink', i, None))
     for proto, endpoint in FILTERS:
         for o in [None] + list(owners):
             evs.append(('unlink_all', 'proid.a#1', proto, endpoint, o))
@@ -812,9 +844,9 @@ class FakeIptables:
         return ip in self.sets.get(name, ())
 
 
-RSRC = ['proid.a-0000000001-000000000000a',
-        'proid.b-0000000002-000000000000b',
-        'proid.c-0000000003-000000000000c']
+RSRC = ['proid.app-0000000001-000000000000a',
+        'proid.app-0000000001-000000000000b',
+        'proid.app-0000000002-000000000000c']
 RSRC_ENV = {RSRC[0]: 'dev', RSRC[1]: 'prod', RSRC[2]: 'dev'}
 
 
